@@ -179,7 +179,7 @@ def compare(c, family, case, a, b, la="A", lb="B", tol=1e-6):
 
 
 def brief(inst):
-    keys = ("times", "theta", "probs", "pvals", "cvals", "mode", "solver", "opts", "goals", "nominals", "minabs",
+    keys = ("times", "theta", "probs", "pvals", "cvals", "mode", "solver", "opts", "goals", "nominals", "minabs", "aux",
             "linearize", "caching_qpsol", "map_mode", "expand")
     return {k: inst[k] for k in keys if k in inst}
 
@@ -381,6 +381,78 @@ def pairs_minabs(c, n):
         c.programs += 2
 
 
+def pairs_minabs_relaxed(c, n):
+    """multi-pass WITHOUT keep_soft_constraints: a min-abs goal with relaxation r (physical units) and
+    function nominal != 1, followed by a priority that pushes into the slack.  Documented: after the
+    goal's priority |f| <= |f*| + r (+ constraint_relaxation * nominal).  Paired with the explicit
+    formulation (user variable b >= f, b >= -f, plain goal minimising b with the same nominal and
+    relaxation) and checked by an independent attainment oracle on the later priorities."""
+    rng = c.rng
+    for _ in range(n):
+        base = G.gen_instance(rng, mode="default", allow_vector=False, allow_critical=False, allow_empty=False,
+                              max_prio=2)
+        for g in base["goals"]:
+            g["priority"] = int(g["priority"]) + 20
+        base["opts"].pop("violation_relaxation", None)
+        T = len(base["times"])
+        v = rng.choice(["u", "w", "x", "y", "u"])
+        path = rng.random() < 0.7
+        ti = rng.randrange(T)
+        w = rng.choice([1.0, 2.5, 0.5])
+        nom = rng.choice([0.1, 1.0, 10.0, 50.0])
+        r = rng.choice([0.0, 0.05, 0.1, 0.5])
+        cr = base["opts"].get("constraint_relaxation", 0.0)
+        if rng.random() < 0.5:
+            opp = {"path": path, "vars": [v], "kind": "min", "priority": 2, "order": 1, "weight": 1.0, "ti": ti,
+                   "nominal": [1.0]}
+        else:
+            opp = {"path": path, "vars": [v], "kind": "tmin", "priority": 2, "order": 1, "weight": 1.0, "ti": ti,
+                   "nominal": [1.0], "range": ([S.VAR_RANGE[v][0]], [S.VAR_RANGE[v][1]]),
+                   "tmin": {"k": "sc", "v": float(S.VAR_RANGE[v][1] - 1)}}
+        ma = {"path": path, "vars": [v], "kind": "min", "priority": 1, "order": 1, "weight": w, "ti": ti,
+              "nominal": [nom]}
+        if r:
+            ma["relaxation"] = r
+        a_inst = dict(copy.deepcopy(base), minabs=[ma])
+        a_inst["goals"] = [opp] + a_inst["goals"]
+        b_inst = copy.deepcopy(base)
+        expl = dict(ma, vars=["absaux"])
+        if not path:
+            expl["extra"] = True
+        b_inst["aux"] = [{"name": "absaux", "path": path, "var": v, "ti": ti}]
+        b_inst["goals"] = [expl, opp] + b_inst["goals"]
+        a = rr(a_inst)
+        b = rr(b_inst)
+        c.count(("minabs-relaxed", path, v, nom, r, tuple(round(x, 6) for x in a[1])))
+        c.hit("min-abs relaxed/nominal=%g" % nom)
+        c.hit("min-abs relaxed/relaxation=%g" % r)
+        case = {"min_abs": brief(a_inst), "two_sided": brief(b_inst)}
+        compare(c, "min-abs-relaxed-vs-two-sided", case, a[:3], b[:3], "min_abs", "two_sided")
+        # attainment oracle (plain statement of the documented retained constraint, physical units)
+        pr = a[3]
+        if not isinstance(a[0], tuple) and len(pr.cap) > 1:
+            first = pr.cap[0]["results"]
+            pushed = False
+            for later in pr.cap[1:]:
+                for m in range(len(a_inst["pvals"])):
+                    idx = range(T) if path else [ti]
+                    for i in idx:
+                        f0 = abs(first[m][v][i])
+                        f1 = abs(later["results"][m][v][i])
+                        slack = r + cr * nom
+                        if f1 > f0 + slack + 1e-6 * (1.0 + f0 + slack):
+                            c.fail("min-abs goal with relaxation: |f| at a later priority exceeds |f*| + relaxation "
+                                   "(+ constraint_relaxation * nominal)", case,
+                                   {"member": m, "step": i, "|f*|": f0, "|f| later": f1, "allowed slack": slack,
+                                    "priority": later["priority"]})
+                            break
+                        if f1 > f0 + 0.5 * slack and slack > 0:
+                            pushed = True
+            if pushed:
+                c.hit("min-abs relaxed/later priority uses the slack")
+        c.programs += 2
+
+
 def pairs_map_modes(c, n):
     for _ in range(n):
         inst = G.gen_instance(c.rng, allow_vector=None)
@@ -536,6 +608,7 @@ def run_check(c):
     pairs_caching(c, 100 if big else 5)
     pairs_caching_qp(c, 40 if big else 3)
     pairs_minabs(c, 150 if big else 6)
+    pairs_minabs_relaxed(c, 150 if big else 8)
     pairs_map_modes(c, 30 if big else 2)
     pairs_resolve(c, 150 if big else 9)
     pairs_linearized(c, 60 if big else 3)
